@@ -609,9 +609,13 @@ def run_check(spec, tier, seed):
             unknown_mm.append((c, it, mt))
     if not violations and unknown_mm:
         c, it, mt = unknown_mm[0]
+        c0, it0, mt0 = c, it, mt
         try:
             sub = c.get('sub', spec.get('sub', 'lsim'))
-            c = shrink_case(sub, c, lambda cc, i2, m2: i2 is not None and not (i2 and i2[0].startswith('PARSE-')) and not spec.get('compare', same_trace)(i2, m2))
+            # shrinking must stay outside the regime of the recorded findings: a smaller history that differs for a known
+            # reason is another failure, not a smaller version of this one
+            c = shrink_case(sub, c, lambda cc, i2, m2: i2 is not None and not (i2 and i2[0].startswith('PARSE-'))
+                            and not spec.get('compare', same_trace)(i2, m2) and not is_known(cc, i2, None, corr=True))
             r = run_both(sub, [dict(c, id='final')], 'shrink', shards=1, timeout=120)
             it, mt = r['final']
         except Exception:
@@ -620,6 +624,11 @@ def run_check(spec, tier, seed):
         if spec.get('oracle'):
             why = spec['oracle'](c, it)
         k = is_known(c, it, why or 'correspondence') or is_known(c, it, None, corr=True)
+        if k:
+            # the shrunk case drifted into a recorded finding: report the original, which is not one
+            c, it, mt = c0, it0, mt0
+            why = spec['oracle'](c, it) if spec.get('oracle') else None
+            k = is_known(c, it, why or 'correspondence') if why else None
         if k:
             seen_known.add(k['class'])
         else:
